@@ -9,7 +9,8 @@
    carries an anchor (keys_plain); anchors sit on Scalars (scalar_anchors). *)
 From Coq Require Import List Ascii String ZArith NArith Bool.
 From YP Require Import Outcome PyStr PyVal Doc PathParser Searches MergeConfig Merge Anchors SpecC10
-  AnchorsFuel AnchorsStr AnchorsProofs AnchorsPolicy AnchorsScan AnchorsUnique MergeLeaves.
+  AnchorsFuel AnchorsStr AnchorsProofs AnchorsPolicy AnchorsScan AnchorsUnique MergeLeaves
+  MergeRootLeaves AnchorsGuards AnchorsFinal AnchorsNoCrash.
 Import ListNotations.
 Open Scope string_scope.
 Open Scope list_scope.
@@ -305,3 +306,221 @@ Proof.
                [NSeq (mkinfo 3 (Some "l") true None) [lf 4 None (PInt 1)]]).
   split; [eexists; eexists; split; reflexivity|reflexivity].
 Qed.
+
+(* ================= round 4: the FINAL document, no crash, computable guards ================= *)
+
+(* The merge proper INCLUDING its root dispatch (_insert_dict / _insert_list / _insert_set /
+   _insert_scalar: the fresh wrapper list `[rhs]`, the Hash built from a Set, the Set built from a
+   list, lhs.yaml_set_tag(rhs.tag) on the merged container) creates no anchored Scalar and changes
+   none: every Scalar of the document merge_root RETURNS is a Scalar of one of the two documents it
+   was given, or the unnamed null _insert_set creates.  All documents, policies, rule tables. *)
+Theorem C10_merge_root_keeps_scalars :
+  forall lit cfg l r m,
+    merge_root lit cfg l r = Ok m ->
+    forall p, In p (an_all m) -> is_leaf p = true -> In p (an_all l) \/ In p (an_all r) \/ p = mg_null.
+Proof. exact merge_root_keeps_scalars. Qed.
+Print Assumptions C10_merge_root_keeps_scalars.
+
+(* The bridge: in a tidy document (computable guard an_doc_tidy: no container, hash key or SET
+   MEMBER carries an anchor name) every node carrying a name is a Scalar at a place; the conflict
+   resolution hands a tidy pair to the merge proper. *)
+Theorem C10_tidy_bridge :
+  forall d, an_doc_tidy d = true ->
+    forall p a, In p (an_all d) -> c10_name p = Some a -> In p (places d) /\ is_leaf p = true.
+Proof. exact tidy_bridge. Qed.
+
+Theorem C10_resolved_pair_tidy :
+  forall cfg l r l' r',
+    an_doc_tidy l = true -> an_doc_tidy r = true ->
+    (anchor_merge_mode cfg = Ok KRename -> an_heap_ok r) ->
+    resolve_conflicts cfg l r = Ok (l', r') ->
+    an_doc_tidy l' = true /\ an_doc_tidy r' = true.
+Proof. exact resolve_tidy. Qed.
+Print Assumptions C10_resolved_pair_tidy.
+
+(* the Prop-level hypotheses of C10_unique_names / C10_rename are decided by boolean tests *)
+Theorem C10_guards_decide :
+  forall d, (one_node_per_name_b d = true <-> one_node_per_name d) /\
+            (an_heap_ok_b d = true <-> an_heap_ok d) /\
+            (an_doc_tidy d = true -> an_doc_ok d = true).
+Proof. intros d. split; [apply one_node_per_name_b_iff|split; [apply an_heap_ok_b_iff|apply doc_tidy_ok]]. Qed.
+Print Assumptions C10_guards_decide.
+
+(* LEFT, of the document merge_with returns: every Scalar of the merged document -- hash key,
+   value, array element, set member, at any depth -- that carries a conflicting name a IS the
+   left-hand node la (same object, left value).  `all_read a la l`: the left document itself
+   reads la at every place of a (it does when it holds one node per name). *)
+Theorem C10_left_final :
+  forall cfg lit l r m a la ra,
+    anchor_merge_mode cfg = Ok KLeft ->
+    an_doc_tidy l = true -> an_doc_tidy r = true ->
+    ad_get a (an_scan_anchors l []) = Some la -> ad_get a (an_scan_anchors r []) = Some ra ->
+    anchors_match la ra = false ->
+    all_read a la l ->
+    merge_with_anchors cfg lit l r = Ok m ->
+    all_scalars_read a la m.
+Proof. exact final_left. Qed.
+Print Assumptions C10_left_final.
+
+(* RIGHT: every Scalar of the merged document carrying a name both documents define is the
+   right-hand node *)
+Theorem C10_right_final :
+  forall cfg lit l r m a la ra,
+    anchor_merge_mode cfg = Ok KRight ->
+    an_doc_tidy l = true -> an_doc_tidy r = true ->
+    ad_get a (an_scan_anchors l []) = Some la -> ad_get a (an_scan_anchors r []) = Some ra ->
+    all_read a ra r ->
+    merge_with_anchors cfg lit l r = Ok m ->
+    all_scalars_read a ra m.
+Proof. exact final_right. Qed.
+Print Assumptions C10_right_final.
+
+Theorem C10_one_node_reads :
+  forall d a x, an_doc_ok d = true -> one_node_per_name d ->
+    ad_get a (an_scan_anchors d []) = Some x -> all_read a x d.
+Proof. exact one_node_reads. Qed.
+
+(* RENAME keeps both values, in the merged document: every Scalar named a is the left node;
+   every Scalar carrying the new name nn is the right node under its new name (same object, same
+   value); nn is _calc_unique_anchor's answer, used by neither input.  Guard: c10_pair_guard,
+   ONE computable test on the pair (tidy documents, one node per name, right-hand tree faithful
+   to its heap). *)
+Theorem C10_rename_final :
+  forall cfg lit l r m a la ra,
+    anchor_merge_mode cfg = Ok KRename -> c10_pair_guard l r = true ->
+    ad_get a (an_scan_anchors l []) = Some la -> ad_get a (an_scan_anchors r []) = Some ra ->
+    anchors_match la ra = false ->
+    merge_with_anchors cfg lit l r = Ok m ->
+    all_scalars_read a la m /\
+    exists nn, calc_unique_anchor a (known_names (an_scan_anchors l []) (an_scan_anchors r [])) = Ok nn /\
+               ~ In nn (known_names (an_scan_anchors l []) (an_scan_anchors r [])) /\
+               all_scalars_read nn (an_with_name nn ra) m.
+Proof. exact final_rename_b. Qed.
+Print Assumptions C10_rename_final.
+
+(* UNIQUE NAMES in the merged document, under any of the four policies: one anchored Scalar per
+   name -- what the serializer needs (no anchor defined twice, every alias has its definition) *)
+Theorem C10_unique_names_final :
+  forall cfg lit l r m,
+    c10_pair_guard l r = true -> merge_with_anchors cfg lit l r = Ok m -> an_doc_unique m.
+Proof. exact final_unique_names_b. Qed.
+Print Assumptions C10_unique_names_final.
+
+(* NO CRASH.  On documents whose hash keys carry no anchor (anchored containers as values are
+   allowed), for every configuration: _resolve_anchor_conflicts ends in a resolved pair, in the
+   MergeException of 'stop', or in the NameError of a policy text outside its enumeration; never
+   KeyError (dictionary lookups, replace_anchor's data.pop), AttributeError (repl_node.anchor),
+   OutOfFuel (_calc_unique_anchor).  Guard keys_plain = the side condition finding F-C10-2 marks. *)
+Theorem C10_no_crash_partial :
+  forall cfg l r, keys_plain l = true -> keys_plain r = true -> an_clean cfg (resolve_conflicts cfg l r).
+Proof. exact resolve_no_crash. Qed.
+Print Assumptions C10_no_crash_partial.
+
+Theorem C10_no_crash_policy_partial :
+  forall cfg l r mode,
+    anchor_merge_mode cfg = Ok mode -> keys_plain l = true -> keys_plain r = true ->
+    (exists res, resolve_conflicts cfg l r = Ok res) \/
+    (mode = KStop /\ resolve_conflicts cfg l r = Raise MergeExc).
+Proof. exact resolve_no_crash_policy. Qed.
+Print Assumptions C10_no_crash_policy_partial.
+
+(* ... and the guard is needed.  KNOWN FINDING F-C10-3 (found by this proof's forced hypothesis,
+   replayed on the code):  {&x k: 1}  +  {a: &x [1, 2]}  under anchors=right -- the left KEY named x
+   is to be replaced by the right-hand node named x, an Array: `data.insert(idx, repl_node, ...)`
+   hashes it and the merge ends in TypeError (unhashable type: 'CommentedSeq'), neither a document
+   nor a MergeException. *)
+Definition w3_l : node := NMap (mkinfo 2 None true None) [(lf 3 (Some "x") (PStr "k"), lf 4 None (PInt 1))].
+Definition w3_r : node :=
+  NMap (mkinfo 5 None true None)
+       [(lf 6 None (PStr "a"), NSeq (mkinfo 7 (Some "x") true None) [lf 4 None (PInt 1); lf 8 None (PInt 2)])].
+
+Theorem C10_no_crash_refuted :
+  exists cfg l r,
+    anchor_merge_mode cfg = Ok KRight /\ keys_plain l = false /\
+    resolve_conflicts cfg l r = Raise (PyCrash TypeError).
+Proof. exists (ex_cfg "right"), w3_l, w3_r. repeat split; vm_compute; reflexivity. Qed.
+
+(* 'stop', exactly: a MergeException iff some common name does not match *)
+Theorem C10_stop_exact_partial :
+  forall cfg l r,
+    anchor_merge_mode cfg = Ok KStop -> keys_plain l = true -> keys_plain r = true ->
+    ((exists a la ra, ad_get a (an_scan_anchors l []) = Some la /\ ad_get a (an_scan_anchors r []) = Some ra /\
+                      anchors_match la ra = false) -> resolve_conflicts cfg l r = Raise MergeExc) /\
+    (no_conflict l r -> exists res, resolve_conflicts cfg l r = Ok res).
+Proof. exact resolve_stop_exact. Qed.
+Print Assumptions C10_stop_exact_partial.
+
+(* ---------- the edges of the quantifier (known findings) ---------- *)
+Definition ct (o : N) (a : option string) : info := mkinfo o a true None.
+
+(* F-C10-1: an anchored CONTAINER that is an array element.   [&l [1, 2]]  +  {list: &l [3]}
+   under anchors=stop: the two anchors named l differ, yet the merge is accepted and the merged
+   document holds two different objects of different value under the one name. *)
+Definition w1_l : node := NSeq (ct 2 None) [NSeq (ct 3 (Some "l")) [lf 4 None (PInt 1); lf 5 None (PInt 2)]].
+Definition w1_r : node := NMap (ct 6 None) [(lf 7 None (PStr "list"), NSeq (ct 8 (Some "l")) [lf 9 None (PInt 3)])].
+
+Theorem C10_anchored_container_element_refuted :
+  exists cfg lit l r m n k,
+    anchor_merge_mode cfg = Ok KStop /\ merge_with_anchors cfg lit l r = Ok m /\
+    In n (an_all m) /\ In k (an_all m) /\ c10_name n = Some "l" /\ c10_name k = Some "l" /\
+    node_oid n <> node_oid k /\ node_eq n k = false /\
+    an_doc_tidy l = false.
+Proof.
+  exists (ex_cfg "stop"), (fun _ => Ok LFail), w1_l, w1_r.
+  eexists. exists (NSeq (ct 3 (Some "l")) [lf 4 None (PInt 1); lf 5 None (PInt 2)]), (NSeq (ct 8 (Some "l")) [lf 9 None (PInt 3)]).
+  split; [reflexivity|]. split; [vm_compute; reflexivity|].
+  split; [simpl; tauto|]. split; [simpl; tauto|].
+  repeat split; try reflexivity. vm_compute. discriminate.
+Qed.
+
+(* F-C10-2: anchored KEYS.   {p: 0, &z kzw: [1], &x kxv: {a: v}}  +  {b: [{f: &x v, c: &z v}, 2]}
+   under anchors=right: both anchored keys are replaced by right-hand nodes equal to `v`; the
+   second re-insertion meets the key the first one made and one entry of the Hash is lost. *)
+Definition w2_l : node := NMap (ct 2 None)
+  [(lf 3 None (PStr "p"), lf 4 None (PInt 0));
+   (lf 5 (Some "z") (PStr "kzw"), NSeq (ct 6 None) [lf 7 None (PInt 1)]);
+   (lf 8 (Some "x") (PStr "kxv"), NMap (ct 9 None) [(lf 10 None (PStr "a"), lf 11 None (PStr "v"))])].
+Definition w2_r : node := NMap (ct 12 None)
+  [(lf 13 None (PStr "b"),
+    NSeq (ct 14 None) [NMap (ct 15 None) [(lf 16 None (PStr "f"), lf 17 (Some "x") (PStr "v"));
+                                          (lf 18 None (PStr "c"), lf 19 (Some "z") (PStr "v"))];
+                       lf 20 None (PInt 2)])].
+
+Theorem C10_anchored_key_collision_refuted :
+  exists cfg l r li lkvs li' lkvs' r',
+    anchor_merge_mode cfg = Ok KRight /\ l = NMap li lkvs /\ keys_plain l = false /\
+    resolve_conflicts cfg l r = Ok (NMap li' lkvs', r') /\
+    List.length lkvs = 3 /\ List.length lkvs' = 2 /\
+    (* the entry  kzw: [1]  is gone: no key of the result holds its value *)
+    (forall kv, In kv lkvs' -> snd kv <> NSeq (ct 6 None) [lf 7 None (PInt 1)]).
+Proof.
+  exists (ex_cfg "right"), w2_l, w2_r. eexists. eexists. eexists. eexists. eexists.
+  split; [reflexivity|]. split; [reflexivity|]. split; [reflexivity|].
+  split; [vm_compute; reflexivity|]. split; [reflexivity|]. split; [reflexivity|].
+  intros kv Hin. simpl in Hin. destruct Hin as [<-|[<-|[]]]; discriminate.
+Qed.
+
+(* ---------- non-vacuity of the round-4 statements ---------- *)
+(* the one computable guard holds of  {a: &x 1, b: *x} / {c: &x 2, d: [*x], e: &y 7, f: &x_1 0};
+   merge_with returns a document under 'rename' and under 'left' *)
+Example C10_final_example :
+  c10_pair_guard ex2_l ex2_r = true /\
+  all_read "x" ex_lx ex2_l /\ all_read "x" ex_rx ex2_r /\
+  (exists m, merge_with_anchors (ex_cfg "rename") (fun _ => Ok LFail) ex2_l ex2_r = Ok m) /\
+  (exists m, merge_with_anchors (ex_cfg "left") (fun _ => Ok LFail) ex2_l ex2_r = Ok m) /\
+  (exists m, merge_with_anchors (ex_cfg "right") (fun _ => Ok LFail) ex2_l ex2_r = Ok m).
+Proof.
+  split; [vm_compute; reflexivity|].
+  split; [intros n Hn; vm_compute in Hn; repeat (destruct Hn as [<-|Hn]; [reflexivity|]); contradiction|].
+  split; [intros n Hn; vm_compute in Hn; repeat (destruct Hn as [<-|Hn]; [reflexivity|]); contradiction|].
+  repeat split; eexists; vm_compute; reflexivity.
+Qed.
+
+(* the guards are not trivially true:  [&x 1, &x 2]  re-defines a name;  a tree showing one oid
+   with two contents is no heap;  a Set member carrying an anchor is not tidy *)
+Example C10_guards_example :
+  one_node_per_name_b (NSeq (ct 2 None) [lf 3 (Some "x") (PInt 1); lf 4 (Some "x") (PInt 2)]) = false /\
+  an_heap_ok_b (NSeq (ct 2 None) [lf 3 None (PInt 1); lf 3 None (PInt 2)]) = false /\
+  an_doc_tidy (NSet (ct 2 None) [lf 3 (Some "x") (PInt 1)]) = false /\
+  keys_plain ex2_l = true /\ keys_plain ex2_r = true.
+Proof. repeat split; vm_compute; reflexivity. Qed.
